@@ -67,11 +67,20 @@ def make_args(prog, ip, f, st):
     defaults = f.node.args.defaults
     nd = len(defaults)
     allp = [a.arg for a in f.node.args.args]
+    # parameters that are used as objects (attribute access) are abstract heap objects, so that
+    # writes to their fields are seen again when the field is read (capability.capa_value = ...)
+    objparams = set()
+    for n in ast.walk(f.node):
+        if isinstance(n, ast.Attribute) and isinstance(n.value, ast.Name) and n.value.id in params:
+            objparams.add(n.value.id)
     for p in params:
         i = allp.index(p)
         di = i - (len(allp) - nd)
         if di >= 0 and isinstance(defaults[di], ast.Constant) and isinstance(defaults[di].value, bool):
             args.append(Opaque(p, 'bool'))
+        elif p in objparams:
+            o = st.new_obj('inst', 'Unknown', hint=p)
+            args.append(o)
         else:
             args.append(Opaque(p, 'bytes'))
     return selfv, args
